@@ -85,7 +85,7 @@ CLAIMS = {
  "C16": ("exploration",
          "exhaustive (precision, scale) x boundary magnitudes + rapid random digit strings and text variants, oracle = math/big.Rat and an independent numeral scanner",
          "All 779 (precision, scale) pairs x signs x boundary magnitudes are enumerated; random digit strings, text variants, unrepresentable inputs (per root-cause class) and invalid constructions are generated; String() is compared with the exact expansion of u/10^scale, SetString with exact rational arithmetic, rejected input must leave the decimal unchanged.",
-         "Variants whose acceptance the documentation does not promise ('+', surrounding spaces, '.5', '5.', zero digits beyond the scale) are tolerated: exact if accepted, otherwise error and unchanged. Precision 0 is not judged (the library itself constructs NewDecimal(0,0)).",
+         "A numeral is what math/big.Rat (the reference the property names) reads as one over digits, sign and point ('+5', '.5', '5.' included); surrounding spaces and zero digits beyond the scale are tolerated: exact if accepted, otherwise error and unchanged. Precision 0 is not judged (the library itself constructs NewDecimal(0,0)).",
          "DESIGN.md section 3, C16"),
  "C17": ("exploration",
          "rapid struct generators + round trip Parse(Format(v)) oracle, override/unknown-key metamorphic checks, exhaustive small-alphabet string enumeration and native go fuzzing for parser totality",
